@@ -24,6 +24,9 @@
 //	   caller that re-uses its []*object.Commit buffer: same slice header, other contents)
 //	3  Initialize is called twice in a row, then Run (re-initialisation must be idempotent)
 //
+// mode + 10: error path - the run is prepared as by mode, and the providing item fails at its ceil(len/2)-th Consume
+// call, so that Run aborts half way (fail -> re-use: the aborted run itself is not judged, the runs after it are)
+//
 // The pipelines of this harness hold recording items only.  The stock item TreeDiff cannot be re-run on one
 // Pipeline in the unmodified tree at all (TreeDiff.Initialize does not clear previousCommit, so the first commit of
 // the second run fails its parent test): that is outside what these pipelines exercise.
@@ -34,6 +37,7 @@ import (
 	"runtime/debug"
 	"sort"
 	"sync"
+	"time"
 
 	"gopkg.in/src-d/go-git.v4/plumbing"
 	"gopkg.in/src-d/go-git.v4/plumbing/object"
@@ -47,6 +51,8 @@ type selRun struct {
 	Mode, Opts, Dist int
 	Sel              []int
 }
+
+func (r selRun) fails() bool { return r.Mode >= 10 }
 
 type reuseIn struct {
 	Kind  string
@@ -77,7 +83,7 @@ func runReuse(in reuseIn) []Sx {
 	curOpts, curDist := 0, 0
 	var runs, sels []Sx
 	for k, r := range in.Runs {
-		mode := r.Mode
+		mode := r.Mode % 10
 		if k == 0 && mode == 1 {
 			mode = 0
 		}
@@ -91,7 +97,7 @@ func runReuse(in reuseIn) []Sx {
 			continue
 		}
 		var commits []*object.Commit
-		if mode == 2 && prev != nil && cap(prev) >= len(sel) {
+		if mode%10 == 2 && prev != nil && cap(prev) >= len(sel) {
 			commits = prev[:len(sel)]
 		} else {
 			commits = make([]*object.Commit, len(sel))
@@ -101,10 +107,15 @@ func runReuse(in reuseIn) []Sx {
 		}
 		prev = commits
 		sh.logs = [2][]Sx{}
+		sh.calls, sh.failAt = 0, 0
+		if r.fails() {
+			sh.failAt = (len(sel) + 1) / 2
+			mode += 10
+		}
 		status := "ok"
 		var err error
 		_, panicked := Catch(func() {
-			if mode == 1 {
+			if mode%10 == 1 {
 				manual.st, cp.st = recState{last: -1}, recState{last: -1}
 			} else {
 				curOpts, curDist = r.Opts, r.Dist
@@ -115,7 +126,7 @@ func runReuse(in reuseIn) []Sx {
 					factDumpPlan:                   r.Opts&optDumpPlan != 0,
 					factPrintActions:               r.Opts&optPrintActions != 0,
 				}
-				if err = pipeline.Initialize(facts); err == nil && mode == 3 {
+				if err = pipeline.Initialize(facts); err == nil && mode%10 == 3 {
 					err = pipeline.Initialize(facts)
 				}
 				if err != nil {
@@ -281,6 +292,11 @@ func mkRuns(r rnd, order []int, sets []map[int]bool, dist int) []selRun {
 			continue
 		}
 		m, o, d := prep(r, k, dist)
+		// now and then a run that is made to fail half way is put in front of this one
+		if r.Intn(10) == 0 {
+			runs = append(runs, selRun{Mode: 10 + m, Opts: o, Dist: d, Sel: sel})
+			m, o, d = prep(r, k+1, dist)
+		}
 		runs = append(runs, selRun{Mode: m, Opts: o, Dist: d, Sel: sel})
 	}
 	return runs
@@ -393,7 +409,11 @@ func tm(r rnd) int {
 }
 
 func baseGraph(r rnd, c *Config) pl.Graph {
-	switch r.Intn(10) / 3 {
+	x := r.Intn(10) / 3
+	if x == 3 && !c.Thorough() && r.Intn(3) > 0 {
+		x = 0 // histories with forks of 7..13 branches have 30..60 commits: one in thirty in the quick tier
+	}
+	switch x {
 	case 0:
 		return rootsGraph(r, 1+r.Intn(4))
 	case 1:
@@ -505,11 +525,11 @@ func genGrow(r rnd, c *Config) reuseIn {
 	return reuseIn{Kind: "reuse-grow", G: g, Salt: r.Intn(1 << 20), TMode: tm(r), Runs: mkRuns(r, order, sets, r.Intn(4))}
 }
 
-// genMedium: a ladder / comb / bush of 40..90 commits run three times with another commit of the middle left out
+// genMedium: a ladder / comb / bush of up to 60 commits run three times with another commit of the middle left out
 func genMedium(r rnd, c *Config, size int) reuseIn {
 	shape := []string{"ladder", "comb", "bush", "diamonds", "ffchain"}[r.Intn(5)]
 	sg := pl.ScaleGraph(shape, size, 0, 0, int64(r.Intn(1<<30)))
-	for sg.N > 100 { // size counts branches / rungs, not commits; exec_ok is polynomial of high degree
+	for sg.N > 60 { // size counts branches / rungs, not commits; exec_ok is polynomial of high degree
 		size = size * 2 / 3
 		sg = pl.ScaleGraph(shape, size, 0, 0, int64(r.Intn(1<<30)))
 	}
@@ -522,6 +542,139 @@ func genMedium(r rnd, c *Config, size int) reuseIn {
 		sets = append(sets, s)
 	}
 	return reuseIn{Kind: "reuse-medium", G: g, Salt: r.Intn(1 << 20), TMode: tm(r), Runs: mkRuns(r, order, sets, r.Intn(3))}
+}
+
+// ---------------------------------------------------------------------------------------------
+// large histories on one Pipeline object (kinds reuse-big-<shape>): a history of planlib.ScaleGraph is run several
+// times with the light recording item; run k leaves out commit drops[k] (-1: nothing) - a commit whose removal keeps
+// the history connected, never the first or the last of the slice, so that consecutive runs have the same length and
+// the same ends.  A memo that is only kept for histories above some size ("planning a long history is expensive") is
+// in reach of these cases only.
+
+// droppable: removing commit d leaves the rest of the history connected
+func droppable(ps [][]int, d int) bool {
+	n := len(ps)
+	adj := make([][]int, n)
+	for c, l := range ps {
+		for _, p := range l {
+			if p >= 0 && p != d && c != d {
+				adj[c] = append(adj[c], p)
+				adj[p] = append(adj[p], c)
+			}
+		}
+	}
+	start := 0
+	if d == 0 {
+		start = 1
+	}
+	seen := make([]bool, n)
+	seen[start] = true
+	stack := []int{start}
+	cnt := 1
+	for len(stack) > 0 {
+		x := stack[len(stack)-1]
+		stack = stack[:len(stack)-1]
+		for _, y := range adj[x] {
+			if !seen[y] {
+				seen[y] = true
+				cnt++
+				stack = append(stack, y)
+			}
+		}
+	}
+	return cnt == n-1
+}
+
+type bigIn struct {
+	sp    scaleIn
+	drops []int
+}
+
+func runBigReuse(in bigIn) []Sx {
+	sp := in.sp
+	g := pl.ScaleGraph(sp.shape, sp.size, sp.hmode, sp.tmode, sp.gseed)
+	specs := make([]synth.CommitSpec, g.N)
+	files := []synth.FileSpec{{Path: "f", Data: []byte("x\n")}}
+	for i := range specs {
+		t := int64(i) * 60
+		if len(g.Times) == g.N {
+			t = int64(g.Times[i])
+		}
+		specs[i] = synth.CommitSpec{AuthorName: "u", AuthorEmail: "u@x", AuthorWhen: time.Unix(pl.TimeBase+t, 0),
+			Message: fmt.Sprintf("g%d c%d", sp.gseed, i), Files: files}
+	}
+	for _, e := range g.Edges {
+		specs[e[0]].Parents = append(specs[e[0]].Parents, e[1])
+	}
+	repo, byNum := synth.BuildRepo(specs)
+	sh := &lightShared{id: make(map[plumbing.Hash]int, g.N), next: 1}
+	for i, c := range byNum {
+		sh.id[c.Hash] = i
+	}
+	pipeline := hercules.NewPipeline(repo)
+	pipeline.AddItem(&recLight{sh: sh, id: 0})
+	var runs []Sx
+	var drops []int
+	for k, d := range in.drops {
+		if d >= g.N {
+			continue
+		}
+		commits := make([]*object.Commit, 0, g.N)
+		for _, i := range g.Order {
+			if i != d {
+				commits = append(commits, byNum[i])
+			}
+		}
+		sh.events = []Sx{T("root", I(0))}
+		sh.next = 1
+		status := "ok"
+		var err error
+		_, panicked := Catch(func() {
+			if k == 0 || k%2 == 1 { // every second later run without Initialize
+				facts := map[string]interface{}{
+					hercules.ConfigPipelineCommits: commits,
+					factHibernationDistance:        sp.dist,
+					hercules.ConfigLogger:          nopLogger{},
+					factDumpPlan:                   sp.opts&optDumpPlan != 0,
+					factPrintActions:               sp.opts&optPrintActions != 0,
+				}
+				if err = pipeline.Initialize(facts); err != nil {
+					status = "initfail"
+					return
+				}
+				debug.SetGCPercent(400)
+			}
+			_, err = pipeline.Run(commits)
+		})
+		if panicked {
+			status = "panic"
+		} else if err != nil && status == "ok" {
+			status = "err"
+		}
+		drops = append(drops, d)
+		runs = append(runs, T("run", A(status), T("log", sh.events...)))
+	}
+	fs := []Sx{T("kind", A("reuse-big-"+sp.shape)), T("nt", B(true))}
+	fs = append(fs, pl.ScaleFields(sp.shape, sp.size, sp.hmode, sp.tmode, sp.gseed, g)...)
+	fs = append(fs, T("dist", I(sp.dist)), T("opts", I(sp.opts)), T("drops", Ints(drops).List...))
+	return append(fs, T("obs", T("runs", runs...)))
+}
+
+func genBig(r rnd, shape string, size int) bigIn {
+	sp := scaleIn{shape: shape, size: size, hmode: 0, tmode: 2, gseed: int64(r.Intn(1 << 30)), dist: r.Intn(3), opts: []int{0, 0, optPrintActions}[r.Intn(3)]}
+	if r.Intn(3) == 0 {
+		sp.hmode = 1 // hashes descending, the slice reversed
+	}
+	ps := pl.ScaleGraph(shape, size, sp.hmode, sp.tmode, sp.gseed).Parents()
+	n := len(ps)
+	var drops []int
+	for tries := 0; len(drops) < 3 && tries < 200; tries++ {
+		d := 1 + r.Intn(n-2)
+		if droppable(ps, d) {
+			drops = append(drops, d)
+		}
+	}
+	return bigIn{sp: sp, drops: append(drops, -1, drops[0])}
 }
 
 func reuseStreams(c *Config, workers int) {
@@ -560,24 +713,35 @@ func reuseStreams(c *Config, workers int) {
 		}
 	}
 	flush()
-	for i := c.Count(700, 12000); i > 0; i-- {
+	for i := c.Count(500, 12000); i > 0; i-- {
 		ins = append(ins, genSides(r))
 	}
-	for i := c.Count(900, 16000); i > 0; i-- {
+	for i := c.Count(500, 16000); i > 0; i-- {
 		ins = append(ins, genMid(r, c))
 	}
-	for i := c.Count(500, 10000); i > 0; i-- {
+	for i := c.Count(300, 10000); i > 0; i-- {
 		ins = append(ins, genSub(r, c))
 	}
-	for i := c.Count(400, 8000); i > 0; i-- {
+	for i := c.Count(250, 8000); i > 0; i-- {
 		ins = append(ins, genGrow(r, c))
 		if len(ins) >= 4096 {
 			flush()
 		}
 	}
 	flush()
-	for i := c.Count(4, 60); i > 0; i-- {
-		ins = append(ins, genMedium(r, c, 40+r.Intn(50)))
+	for i := c.Count(3, 60); i > 0; i-- {
+		ins = append(ins, genMedium(r, c, 30+r.Intn(30)))
 	}
 	flush()
+	if c.Tier != "search" {
+		c.Emit(runBigReuse(genBig(r, "comb", 600+r.Intn(30)))...)
+		c.Emit(runBigReuse(genBig(r, "diamonds", 400+r.Intn(10)))...)
+		c.Emit(runBigReuse(genBig(r, "bush", 1000+r.Intn(30)))...)
+		if c.Thorough() {
+			for _, sh := range []string{"comb", "diamonds", "ladder", "roots", "bush"} {
+				c.Emit(runBigReuse(genBig(r, sh, 10000+r.Intn(300)))...)
+			}
+			c.Emit(runBigReuse(genBig(r, "comb", 32768+r.Intn(3)))...)
+		}
+	}
 }
